@@ -3,7 +3,7 @@ import random, warnings
 from .. import core, gen, ref
 from . import cu
 
-MODULES = ['DsdVerif.Props.C20', 'DsdVerif.Props.PyLegacy2', 'DsdVerif.Props.PyLegacyReg']
+MODULES = ['DsdVerif.Props.C20', 'DsdVerif.Props.PyLegacy2', 'DsdVerif.Props.PyLegacyReg', 'DsdVerif.Props.PyLegacyInit']
 GEN_FILES = ['LegacyIupac', 'IupacTables', 'LegacyWrappers', 'PyLegacy', 'PyLegacyReg', 'PyLegacyInit', 'PyFuncs']
 THEOREM_NAMES = ['legacy_iupac_agree_dna', 'legacy_iupac_agree_rna', 'legacy_wobble_total']
 THEOREMS = ['Dsd.C20.' + t for t in THEOREM_NAMES] + ['Dsd.C20L.' + t for t in ('legacy_canon_eq', 'legacy_rotations_spec', 'legacy_dup_iff')] + \
@@ -26,6 +26,8 @@ THEOREMS = ['Dsd.C20.' + t for t in THEOREM_NAMES] + ['Dsd.C20L.' + t for t in (
     ['Dsd.PyLegacyReg.' + t for t in (
         # canonical_form (with the in-place rotate() cycle) and do_memorycheck as written in the source (Gen/PyLegacyReg.lean)
         'py_do_memorycheck_eq', 'py_canonical_form_eq', 'py_canonical_form_cached', 'py_legacy_full_canon_eq', 'py_canonical_form_restores')]
+# the whole legacy constructor as written in the source equals LegacyFull.construct; a refused construction leaves NAMES and MEMORY as they were
+THEOREMS += ['Dsd.PyLegacyInit.' + t for t in ['py_init_eq', 'py_refused_leaves_nothing', 'py_legacy_construct_eq', 'py_canonicalForm_keeps_name']]
 ASSUMPTIONS = [
     'the legacy SequenceConstraint tables are transcribed from the dictionaries inside its methods (Gen/LegacyIupac.lean, evaluated with '
     'T -> T and T -> U) and compared with the current tables by kernel-decided theorems',
